@@ -248,11 +248,15 @@ def run_circular(cap, ops):
         return "circular", f"max_size={cb.max_size}, constructed with {cap}"
     for step, (op, val) in enumerate(ops):
         if op == "put":
-            cb.put(val)
+            r = outcome(lambda: cb.put(val))
             hist.append(val)
         else:
-            cb.clear()
+            r = outcome(lambda: cb.clear())
             hist = []
+        if r != ("ok", None):
+            return "circular-operation-raised", f"capacity {cap}, step {step + 1}: {op} -> {r}"
+        if cb.max_size != cap:
+            return "circular-capacity", f"capacity {cap}: max_size became {cb.max_size} after {step + 1} operations"
         want = hist[-cap:]
         got = outcome(lambda: list(cb))
         if got != ("ok", want) or len(cb) != len(want):
